@@ -86,7 +86,8 @@ def collect(ex, final):
         for msg in c.contract:
             out.append(V(ex, 'gateway-contract', 'websocket|' + contract_class(msg),
                          'ws ?%s: %s' % (c.query, msg)))
-        if c.exc is not None and not c.accepted and not names_known_session(ex, c):
+        if c.exc is not None and not c.accepted and not c.failed and \
+                not names_known_session(ex, c):
             # a WebSocket request that names no session the server ever had (bad address, bad
             # version, unknown id) is refused at admission like any other request: nothing may
             # escape. Upgrade attempts on existing sessions are outside the statement.
